@@ -1,5 +1,6 @@
 import AtreeModel.Codec.Decode
 import AtreeModel.Codec.Limits
+import AtreeModel.Codec.Hyp
 import AtreeModel.Dump
 import AtreeModel.Replay.Common
 /-
@@ -13,7 +14,8 @@ import AtreeModel.Replay.Common
                                 + hoisted compact-map bytes = reported + extra-data sections); the model's
                                 decoding of <hex> must dump as <decoded dump> (= <dump> unless the slab
                                 holds compact maps) and the exact validator depth `Slab.vdepth` must be
-                                within the DecMode limit
+                                within the DecMode limit; every hypothesis of the C06 / C07 theorems
+                                (`Slab.hypReport`) is evaluated: counters `hypothesis-not-met:<name>`
     ENC <hex> size=<n> | <dump> | !nest
                                 the implementation's decoder rejected the register for its nesting depth:
                                 the model's decoder must reject it too and `Slab.vdepth` must exceed the limit
@@ -509,6 +511,20 @@ def stepENC (s : CodecState) (dump hex : String) (decDump : String) (size : Nat)
     let s := s.check (compact || hoisted == 0) (fun _ =>
       s!"line {lineNo}: hoisted bytes {hoisted} without a compact map: {short dump}")
     let s := if compact then { s with rep := s.rep.tag "ENC:compact" } else s
+    -- the hypotheses of the C06 / C07 theorems (`SlabOKG`; Bool versions in Codec/Hyp.lean, proved
+    -- equivalent in AtreeProofs/Codec/HypB.lean), evaluated on the slab the implementation encoded:
+    -- a failed clause is counted (`hypothesis-not-met:<name>`); it is an ERROR for the clauses claimed
+    -- to be invariants of encodable slabs — all but the older, non-tight nesting clause `nest-vneed`
+    -- (a measured gap) and the exact one on a register the implementation itself rejects (`!nest`)
+    let s := slab.hypReport.foldl (fun (s : CodecState) (p : String × Bool) =>
+      if p.2 then s
+      else if p.1 == "noCompact" || p.1 == "noInl" then s    -- shapes, not hypotheses of the general theorems
+      else
+        let s := { s with rep := s.rep.tag ("hypothesis-not-met:" ++ p.1) }
+        if p.1 == "nest-vneed" || (p.1 == "nest-exact" && nest) then s
+        else s.check false (fun _ =>
+          s!"line {lineNo}: hypothesis `{p.1}` of the C06/C07 theorems does not hold for a slab the implementation encoded: {short dump}")) s
+    let s := if slab.hypOK then { s with rep := s.rep.tag "hypotheses-met" } else s
     let vd := slab.vdepth
     match (decodeSlab slab.id bytes).run with
     | .ok s' _ =>
